@@ -12,6 +12,8 @@
 //	post <op>                   sequential suffix (observer, thread 0): drain / dump / asslice / range ...
 //	burst p=P c=C n=N seed=S    (clq only) a long permit burst, see runBurst; observation: counters and
 //	                            witness projections `w <events>` that the driver checks like histories
+//	cowstack r=R n=N k=K seed=S (cow / clist) a stack burst, see runCowStack; observation: counters and witnesses
+//	                            `ws init=<state> <events>` checked by the driver against the sequence specification
 //	run reps=R extra=E seed=S   execute the scenario R times on fresh objects, record one history each;
 //	                            then up to E more times, recording only a history in which a call panicked
 //	                            (or, for the queues, an element was lost / duplicated / invented)
@@ -180,6 +182,11 @@ func (o *listObj) do(w []string) string {
 				idxOK = false
 			}
 			seen = append(seen, t)
+			if i == 0 {
+				// yield inside the traversal: the window between the reader's snapshot / lock
+				// acquisition and its later element reads becomes wide
+				runtime.Gosched()
+			}
 			return nil
 		})
 		if err != nil || !idxOK {
@@ -912,6 +919,244 @@ func runBurst(p map[string]string) burstResult {
 	return res
 }
 
+// ---------------------------------------------------------------------------------------------
+// cowstack bursts: one writer uses the list as a stack (pop j values from the tail, push j fresh
+// values of a strictly increasing counter), readers traverse it (Range with a yielding callback,
+// AsSlice).  The list is strictly increasing at every instant, so a traversal that is not is
+// suspicious.  Witness for the Lean search (sequence specification, Range/AsSlice = the contents at
+// the linearization point): all mutators are the one writer's sequential calls, so in every
+// linearization the list just before the writer's (a+1)-th call is init with its first a calls applied
+// (readers change nothing).  A witness is therefore the history restricted to the writer's calls that
+// overlap the reader's call, plus that call, starting from that intermediate state:
+//     ws init=<state before the first overlapping writer call> <events>
+// If the whole history is linearizable so is the witness; the driver decides the witness.
+
+type cwop struct {
+	inv, res int64
+	tid      int
+	w        []string
+	r        string
+}
+
+func replayStack(init []int, ops []cwop) []int {
+	st := append([]int{}, init...)
+	for _, o := range ops {
+		switch o.w[0] {
+		case "delete":
+			i := atoi(o.w[1])
+			if i >= 0 && i < len(st) {
+				st = append(st[:i], st[i+1:]...)
+			}
+		case "append":
+			st = append(st, vlib.ParseInts(o.w[1])...)
+		}
+	}
+	return st
+}
+
+func increasing(xs []int) bool {
+	for i := 1; i < len(xs); i++ {
+		if xs[i] <= xs[i-1] {
+			return false
+		}
+	}
+	return true
+}
+
+type stackResult struct {
+	wops, reads, bad, badWriter int
+	hung                        bool
+	witnesses                   []string
+}
+
+func runCowStack(kind string, p0, bp map[string]string) stackResult {
+	R, N, K := atoi(bp["r"]), atoi(bp["n"]), atoi(bp["k"])
+	if R <= 0 || N <= 0 || K <= 0 {
+		return stackResult{}
+	}
+	seed, _ := strconv.ParseUint(bp["seed"], 10, 64)
+	obj := mk(kind, p0).(*listObj)
+	init := vlib.ParseInts(p0["init"])
+	var clock int64
+	var start, stop, fin int32
+	var wops []cwop
+	type rd struct {
+		susp, sample []cwop
+		n            int
+	}
+	rds := make([]rd, R)
+	go func() {
+		rng := vlib.NewRng(seed)
+		shadowLen := len(init)
+		next := 0
+		for _, x := range init {
+			if x > next {
+				next = x
+			}
+		}
+		call := func(w []string) {
+			o := cwop{tid: 1, w: w}
+			o.inv = atomic.AddInt64(&clock, 1)
+			o.r = safeDo(obj, w)
+			o.res = atomic.AddInt64(&clock, 1)
+			wops = append(wops, o)
+		}
+		for atomic.LoadInt32(&start) == 0 {
+		}
+		for round := 0; round < N && atomic.LoadInt32(&stop) == 0; round++ {
+			j := rng.Range(1, K)
+			if j > shadowLen {
+				j = shadowLen
+			}
+			for c := 0; c < j; c++ {
+				shadowLen--
+				call([]string{"delete", strconv.Itoa(shadowLen)})
+			}
+			if rng.Chance(50) {
+				xs := make([]int, j)
+				for c := range xs {
+					next++
+					xs[c] = next
+				}
+				if j > 0 {
+					call([]string{"append", vlib.Ints(xs)})
+				}
+			} else {
+				for c := 0; c < j; c++ {
+					next++
+					call([]string{"append", strconv.Itoa(next)})
+				}
+			}
+			shadowLen += j
+		}
+		atomic.StoreInt32(&stop, 1)
+		atomic.AddInt32(&fin, 1)
+	}()
+	for i := 0; i < R; i++ {
+		go func(i int) {
+			rng := vlib.NewRng(seed + uint64(i+1)*104729)
+			me := &rds[i]
+			for atomic.LoadInt32(&start) == 0 {
+			}
+			for atomic.LoadInt32(&stop) == 0 {
+				o := cwop{tid: i + 2}
+				var got []int
+				panicked := false
+				if rng.Chance(85) {
+					o.w = []string{"range"}
+					yieldAt := rng.Intn(6)
+					o.inv = atomic.AddInt64(&clock, 1)
+					func() {
+						defer func() {
+							if r := recover(); r != nil {
+								panicked = true
+							}
+						}()
+						_ = obj.l.Range(func(idx int, t int) error {
+							got = append(got, t)
+							if idx == yieldAt {
+								runtime.Gosched()
+							}
+							return nil
+						})
+					}()
+					o.res = atomic.AddInt64(&clock, 1)
+				} else {
+					o.w = []string{"asslice"}
+					o.inv = atomic.AddInt64(&clock, 1)
+					func() {
+						defer func() {
+							if r := recover(); r != nil {
+								panicked = true
+							}
+						}()
+						got = obj.l.AsSlice()
+					}()
+					o.res = atomic.AddInt64(&clock, 1)
+				}
+				me.n++
+				if panicked {
+					o.r = "panic"
+				} else {
+					o.r = "s:" + vlib.Ints(got)
+				}
+				if panicked || !increasing(got) {
+					if len(me.susp) < 3 {
+						me.susp = append(me.susp, o)
+					}
+				} else if len(me.sample) < 1 && me.n > 20 {
+					me.sample = append(me.sample, o)
+				}
+			}
+			atomic.AddInt32(&fin, 1)
+		}(i)
+	}
+	alive()
+	atomic.StoreInt32(&start, 1)
+	t0 := time.Now()
+	for polls := 0; atomic.LoadInt32(&fin) != int32(R+1); polls++ {
+		runtime.Gosched()
+		if polls%1024 == 1023 && time.Since(t0) > time.Duration(hangMS)*time.Millisecond {
+			atomic.StoreInt32(&stop, 1)
+			return stackResult{hung: true}
+		}
+	}
+	res := stackResult{wops: len(wops)}
+	mkWitness := func(c *cwop, ops []cwop, initState []int) string {
+		var all []event
+		for _, o := range ops {
+			all = append(all, event{stamp: o.inv, tid: o.tid, w: o.w}, event{stamp: o.res, tid: o.tid, isRes: true, r: o.r})
+		}
+		if c != nil {
+			all = append(all, event{stamp: c.inv, tid: c.tid, w: c.w}, event{stamp: c.res, tid: c.tid, isRes: true, r: c.r})
+		}
+		h := render(all)
+		return "ws init=" + vlib.Ints(initState) + h[1:]
+	}
+	// the writer's own answers, against its sequential shadow
+	st := append([]int{}, init...)
+	for k, o := range wops {
+		want := "ok"
+		if o.w[0] == "delete" {
+			i := atoi(o.w[1])
+			if i >= 0 && i < len(st) {
+				want = "v:" + strconv.Itoa(st[i])
+			} else {
+				want = fmt.Sprintf("err:idx:%d:%d", len(st), i)
+			}
+		}
+		if o.r != want {
+			res.badWriter++
+			if len(res.witnesses) < 3 {
+				res.witnesses = append(res.witnesses, mkWitness(nil, wops[k:k+1], st))
+			}
+		}
+		st = replayStack(st, wops[k:k+1])
+	}
+	addFor := func(c cwop) {
+		a := sort.Search(len(wops), func(k int) bool { return wops[k].res > c.inv })
+		b := sort.Search(len(wops), func(k int) bool { return wops[k].inv > c.res })
+		if b-a > 60 || len(res.witnesses) >= 4 {
+			return
+		}
+		res.witnesses = append(res.witnesses, mkWitness(&c, wops[a:b], replayStack(init, wops[:a])))
+	}
+	for i := range rds {
+		res.reads += rds[i].n
+		res.bad += len(rds[i].susp)
+		for _, c := range rds[i].susp {
+			addFor(c)
+		}
+	}
+	// one ordinary traversal too, so that the path is exercised (and checked) on a healthy tree
+	for i := range rds {
+		if len(rds[i].sample) > 0 && len(res.witnesses) < 2 {
+			addFor(rds[i].sample[0])
+		}
+	}
+	return res
+}
+
 func render(all []event) string {
 	sort.SliceStable(all, func(i, j int) bool { return all[i].stamp < all[j].stamp })
 	toks := make([]string, len(all))
@@ -936,6 +1181,8 @@ type stats struct {
 	Results      map[string]int `json:"results"`
 	Threads      map[string]int `json:"threads"`
 	Hangs        int            `json:"hangs"`
+	Stacks       int            `json:"cowstack_bursts"`
+	StackOps     int            `json:"cowstack_calls"`
 	Bursts       int            `json:"bursts"`
 	BurstOps     int            `json:"burst_calls"`
 	BurstEmpties int            `json:"burst_empty_answers_under_permit"`
@@ -998,9 +1245,9 @@ func runAll(lines []string, out *vlib.Out, st *stats) {
 				k := int(atomic.LoadInt32(&curLine))
 				for i := k; i < len(lines); i++ {
 					switch f := strings.Fields(lines[i]); {
-					case (f[0] == "run" || f[0] == "burst") && i == k:
+					case (f[0] == "run" || f[0] == "burst" || f[0] == "cowstack") && i == k:
 						out.Line("%s => hang", lines[i])
-					case f[0] == "run" || f[0] == "burst":
+					case f[0] == "run" || f[0] == "burst" || f[0] == "cowstack":
 						out.Line("%s => skipped", lines[i])
 					case f[0] == "new":
 						out.Line("%s => ok", lines[i])
@@ -1139,6 +1386,37 @@ func runAll(lines []string, out *vlib.Out, st *stats) {
 			rn.close()
 			out.Line("%s => %s", line, strings.Join(hs, " | "))
 		default:
+			if w[0] == "cowstack" {
+				if sc == nil || (sc.kind != "cow" && sc.kind != "clist") || hungOnce {
+					out.Line("%s => skipped", line)
+					continue
+				}
+				bp := params(w[1:])
+				if singleCase {
+					bp["n"] = strconv.Itoa(atoi(bp["n"]) * 4)
+				}
+				var sr stackResult
+				for round := 0; round < 1 || (singleCase && round < 6 && sr.bad+sr.badWriter == 0); round++ {
+					sr = runCowStack(sc.kind, sc.p, bp)
+					st.Stacks++
+					st.StackOps += sr.wops + sr.reads
+					if sr.hung {
+						break
+					}
+				}
+				if sr.hung {
+					st.Hangs++
+					hungOnce = true
+					out.Line("%s => hang", line)
+					continue
+				}
+				obs := fmt.Sprintf("writes=%d reads=%d suspicious=%d badwriter=%d", sr.wops, sr.reads, sr.bad, sr.badWriter)
+				for _, wt := range sr.witnesses {
+					obs += " | " + wt
+				}
+				out.Line("%s => %s", line, obs)
+				continue
+			}
 			if w[0] == "burst" {
 				if sc == nil || sc.kind != "clq" || hungOnce {
 					out.Line("%s => skipped", line)
@@ -1405,9 +1683,19 @@ func (g *gen) lstRace(kind string) {
 	for w := 0; w < writers; w++ {
 		t++
 		n := g.r.Range(3, 6)
-		mode := g.r.Intn(5)
+		mode := g.r.Intn(6)
+		ln := k
 		for c := 0; c < n; c++ {
 			switch mode {
+			case 5:
+				// stack: tail deletes, then appends into the freed tail (length known with one writer)
+				if c < (n+1)/2 && ln > 0 {
+					ln--
+					g.out.Line("call %d delete %d", t, ln)
+				} else {
+					g.out.Line("call %d append %d", t, g.next())
+					ln++
+				}
 			case 4:
 				// ascending overwrites: a multi-element read must not see a later one without an earlier one
 				g.out.Line("call %d set %d %d", t, c%k, g.next())
@@ -1650,6 +1938,28 @@ func generate(tier string, out *vlib.Out) {
 		out.Line("new clq")
 		pc := vlib.Pick(g.r, [][2]int{{3, 6}, {3, 6}, {2, 4}, {1, 3}, {2, 6}, {4, 4}})
 		out.Line("burst p=%d c=%d n=%d seed=%d", pc[0], pc[1], vlib.Pick(g.r, []int{800, 1500, 3000}), g.r.U64()%1000000007)
+	}
+	// stack bursts on the copy-on-write list (and, fewer, on the RWMutex wrapper)
+	stacks := 40
+	if tier == "thorough" {
+		stacks = 300
+	}
+	if v := os.Getenv("VERIF_LINZ_STACKS"); v != "" {
+		stacks = atoi(v)
+	}
+	for b := 0; b < stacks; b++ {
+		k := g.r.Range(5, 10)
+		init := make([]int, k)
+		for i := range init {
+			init[i] = i + 1
+		}
+		if b%5 == 4 {
+			out.Line("new clist base=%s init=%s", vlib.Pick(g.r, []string{"array", "linked"}), vlib.Ints(init))
+		} else {
+			out.Line("new cow init=%s", vlib.Ints(init))
+		}
+		out.Line("cowstack r=%d n=%d k=%d seed=%d", vlib.Pick(g.r, []int{2, 4, 4}), vlib.Pick(g.r, []int{200, 400}),
+			g.r.Range(2, 4), g.r.U64()%1000000007)
 	}
 	for c := 0; c < cases; c++ {
 		switch c % 10 {
